@@ -663,17 +663,10 @@ Section Clauses.
 
   Lemma ac1 : Bool.eqb (IsIPv6 u) (is_bracketed (Hostname u)) = true.
   Proof.
-    unfold IsIPv6, Hostname. destruct (u_host u) as [h|] eqn:Hh; [|reflexivity].
-    destruct (I_host _ _ Hi h Hh) as [H _].
+    unfold IsIPv6, Hostname, is_bracketed. destruct (u_host u) as [h|]; [|reflexivity].
     destruct h as [|x h]; [reflexivity|].
-    destruct (N.eq_dec x 91) as [->|Hx].
-    - rewrite (bracket_closed h H). reflexivity.
-    - replace (is_bracketed (x :: h)) with false.
-      2:{ unfold is_bracketed.
-          destruct x as [|p]; [reflexivity|].
-          do 7 (destruct p as [p|p|]; try reflexivity). contradiction Hx. reflexivity. }
-      destruct x as [|p]; [reflexivity|].
-      do 7 (destruct p as [p|p|]; try reflexivity). contradiction Hx. reflexivity.
+    destruct x as [|p]; [reflexivity|].
+    do 7 (destruct p as [p|p|]; try reflexivity). apply eqb_reflx.
   Qed.
 
   Lemma ac2 : Bool.eqb (IsIPv4 c u) (isSpecialScheme c (u_scheme u) && dotted_decimal (Hostname u)) = true.
